@@ -1,6 +1,6 @@
 (* C12 — what is sent respects what the peer said it can accept.
    Property theorems only; model Bac.Ssm, proofs in Bac.SsmC12. *)
-From Bac Require Import Base PyRt Ssm SsmFacts SsmC04a SsmC12 SsmWorld.
+From Bac Require Import Base PyRt Ssm SsmFacts SsmC04a SsmC12 SsmWorld SsmDevInfo SsmDevInfoFacts.
 From BacGen Require Import ApduFns.
 Open Scope Z_scope.
 
@@ -117,6 +117,40 @@ Theorem C12_window_range_refuted :
      s_actwin (h_s st) = Some 200 /\ zlen (tx_frames (h_outs st)) = 3 /\ forallb (fun x => a_win x =? 200) (tx_frames (h_outs st)) = true.
 Proof. split; [exact window_zero_witness | exact window_200_witness]. Qed.
 Print Assumptions C12_window_range_refuted.
+
+(* round 6 — the DeviceInfoCache life cycle (model SsmDevInfo.v: records aliased under instance and address keys).
+   An Application constructed with a cache uses that very cache whatever it holds — the EMPTY cache included
+   (`deviceInfoCache or DeviceInfoCache()`: the class has neither __bool__ nor __len__), so records that reach the caller's
+   cache later are the ones the state machines acquire *)
+Theorem C12_app_uses_supplied_cache : forall (A : Type) (c fresh : A), app_cache (Some c) fresh = c.
+Proof. exact (@app_cache_supplied). Qed.
+Print Assumptions C12_app_uses_supplied_cache.
+
+(* the first I-Am recorded into the empty cache: acquire by address and by instance give exactly the announced limits *)
+Theorem C12_cache_first_iam : forall inst addr ma seg,
+  let c := fst (iam_device_info inst addr ma seg empty_cache) in
+  snd (iam_device_info inst addr ma seg empty_cache) = None /\
+  snd (acquire (false, addr) c) = Ok (Some (mkDrec inst addr ma seg (Some 1) (Some (inst, addr)))) /\
+  snd (acquire (true, inst) c) = Ok (Some (mkDrec inst addr ma seg (Some 1) (Some (inst, addr)))).
+Proof. exact first_iam_acquire. Qed.
+Print Assumptions C12_cache_first_iam.
+
+(* a further I-Am of a device already recorded under the same instance and address is NOT ignored: keys unchanged, the record
+   (shared with every open transaction) takes the new limits.  _partial: the general history (devices that change address or
+   instance, two devices claiming one address — where `del` can raise KeyError in the model as in the code) is covered by the
+   correspondence cases only *)
+Theorem C12_cache_repeated_iam_updates_partial : forall c inst addr ma seg i r n,
+  dict_get (true, inst) (dc_dict c) = Some i -> nth_error (dc_heap c) i = Some r ->
+  r_keys r = Some (inst, addr) -> r_ref r = Some n ->
+  exists c', iam_device_info inst addr ma seg c = (c', None) /\ dc_dict c' = dc_dict c /\
+             nth_error (dc_heap c') i = Some (mkDrec inst addr ma seg (Some n) (Some (inst, addr))).
+Proof. exact repeated_iam_updates. Qed.
+Print Assumptions C12_cache_repeated_iam_updates_partial.
+
+Example C12_cache_example :
+  run_cache_ops [CApp true; CIam 5 5 480 3; CIam 5 5 50 0; CAcquire false 5] =
+  [23; 1; 20; 20; 21; 1; 5; 5; 50; 0; 1; 24; 0; 5; 5; 5; 50; 0; 1; 24; 1; 5; 5; 5; 50; 0; 1].
+Proof. vm_compute. reflexivity. Qed.
 
 Example C12_refuse_examples :
   s_refuse (set_limits_f (Some 2) 50 true idle_server) 3 = Some R_APDU_TOO_LONG /\
